@@ -28,7 +28,7 @@ def cases(tier, seed):
         geom = ['3d', '3d', '2d', 'irregular', 'numpy', '2d'][i % 6]
         if geom == '2d':
             nT = rng.choice([2, 5, 15, 16, 17, 33, 40, 63, 65, 130])
-            src = conv.src_desc(rng, '2d', (nT, rng.choice([3, 10, 31])), how2d=rng.choice(['nonumbers', 'single-inline', 'single-crossline']),
+            src = conv.src_desc(rng, '2d', (nT, rng.choice([3, 10, 31])), how2d=rng.choice(['nonumbers', 'single-inline', 'single-crossline', 'single-inline-gathers']),
                                 hdr={'seed': 1, 'nfields': 1, 'inside': True}, valkind=rng.choice(['smooth', 'noise', 'zeros', 'const']))
             settings = rng.sample(set2, 3)
         else:
@@ -41,6 +41,8 @@ def cases(tier, seed):
             settings = rng.sample(set3, 3)
             if i % 5 == 0 and (2, (4, 4, -1)) not in settings:
                 settings[0] = (2, (4, 4, -1))
+        if geom == '3d' and i % 12 == 7:
+            src['sorting'] = 1      # crossline-sorted file: every route reads (and hashes) it inline by inline, i.e. the inline-major cube
         if geom in ('3d', '2d') and i % 5 == 2:
             src['fmt'] = [3, 2, 8][(i // 5) % 3]          # integer sample formats: the hash is still over the float32 samples
         out.append({'id': '%s:%d' % (geom, i), 'src': src, 'settings': [[r, list(b)] for r, b in settings],
@@ -170,13 +172,13 @@ def run_case(case, ctx):
     src = conv.build_source(case['src'], sc)
     if src.get('segyio_structured'):
         return {'nontrivial': False, 'counters': {'skipped_segyio_infers_regular_cube': 1}}
-    if geom == 'numpy':
-        T = src['data'].reshape(-1, src['data'].shape[-1])
+    if geom == 'numpy' or (geom == '3d' and case['src'].get('sorting', 2) != 2):
+        T = np.ascontiguousarray(src['data'].reshape(-1, src['data'].shape[-1]))
     else:
         T = src['traces']
     want = sha(T)
     got = convert_all(src, 'a')
-    strata = {'geom:' + geom, 'where:' + case['where'], 'detection:' + case.get('detection', 'heuristic'), 'fmt:%s' % case['src'].get('fmt', 5)}
+    strata = {'sorting:%d' % case['src'].get('sorting', 2), 'geom:' + geom, 'where:' + case['where'], 'detection:' + case.get('detection', 'heuristic'), 'fmt:%s' % case['src'].get('fmt', 5)}
     strata |= strata_reuse
     if 'pattern' in case:
         strata.add('aligned-axes:%s:%d' % ('2d' if geom == '2d' else '3d', case['pattern']))
@@ -235,11 +237,15 @@ def run_case(case, ctx):
         p2 = sc.file('pert.sgy')
         import shutil
         shutil.copy(src['path'], p2)
+        xs = geom == '3d' and case['src'].get('sorting', 2) != 2
+        nI_, nX_ = (src['data'].shape[:2] if xs else (0, 0))
         with segyio.open(p2, 'r+', strict=False, ignore_geometry=True) as f:
-            f.trace[t] = T2[t]
+            f.trace[(t % nX_) * nI_ + t // nX_ if xs else t] = T2[t]
         src2 = dict(src)
         src2['path'] = p2
         T2 = gen.source_traces(p2)
+        if xs:
+            T2 = np.ascontiguousarray(T2.reshape(nX_, nI_, -1).transpose(1, 0, 2).reshape(nI_ * nX_, -1))
         if np.array_equal(T2.view(np.uint32), T.view(np.uint32)):
             return {'violations': bad, 'counters': {'conversions': n, 'perturbation_lost_in_ibm_rounding': 1}, 'strata': sorted(strata), 'key': case['id']}
     got2 = convert_all(src2, 'b')
@@ -256,7 +262,7 @@ def run_case(case, ctx):
 
 def finalize(tier, cases, results, counters, strata):
     reasons = []
-    need = ['converter-reused', 'fmt:1', 'fmt:5', 'fmt:2', 'fmt:3', 'fmt:8', 'geom:3d', 'geom:2d', 'geom:irregular', 'geom:numpy', 'geom:zgy', 'where:first', 'where:last', 'where:partial', 'where:random', 'windowed']
+    need = ['sorting:1', 'converter-reused', 'fmt:1', 'fmt:5', 'fmt:2', 'fmt:3', 'fmt:8', 'geom:3d', 'geom:2d', 'geom:irregular', 'geom:numpy', 'geom:zgy', 'where:first', 'where:last', 'where:partial', 'where:random', 'windowed']
     need += ['detection:' + d for d in ('heuristic', 'strip', 'thorough', 'exhaustive')]
     need += ['aligned-axes:%s:%d' % (g, p) for g in ('3d', '2d') for p in range(8)]
     for s in need:
